@@ -4,7 +4,7 @@ import ast
 from ..core.model import AnchorError, FuncInfo
 from ..core.cfg import walk_shallow, cfg_of
 from ..core.facts import U, atoms_of
-from ..engine import fn_name, kwarg, local_defs, returns_of, stmts_in
+from ..engine import fn_name, kwarg, local_defs, returns_of, stmts_in, vars_assigned_from, var_from_call
 from ..kinds import cursor as K
 from ..kinds.taint import tainted_returns
 
@@ -52,11 +52,12 @@ def s1(ctx, rep):
             "a configuration can leave suggest() without _postprocess_config: constants of the configuration space are missing "
             "or values are not cast to the domain types")
     g = ts.methods["_postprocess_config"]
-    nc = [d for d in local_defs(g, "new_config") if not isinstance(d, tuple)]
+    ncv = [U(r.value) for r in returns_of(g)]
+    ncv = ncv[0] if len(ncv) == 1 else "?"
+    nc = [d for d in local_defs(g, ncv) if not isinstance(d, tuple)]
     ok = len(nc) == 1 and U(nc[0]) == "self.config_space.copy()"
-    upd = [x for x in walk_shallow(g.node) if isinstance(x, ast.Call) and fn_name(x) == "update" and U(x.func.value) == "new_config"]
+    upd = [x for x in walk_shallow(g.node) if isinstance(x, ast.Call) and fn_name(x) == "update" and U(x.func.value) == ncv]
     ok = ok and len(upd) == 1 and isinstance(upd[0].args[0], ast.Call) and fn_name(upd[0].args[0]) == "cast_config_values"
-    ok = ok and [U(r.value) for r in returns_of(g)] == ["new_config"]
     rep.put(ok, "S1", "agreement", "TrialScheduler._postprocess_config: copy of the space (constants kept) updated with the cast values", g, None, "",
             "the post-processed configuration does not start from the full configuration space or is not cast to the domain types")
     # who may call _suggest
@@ -157,14 +158,19 @@ def s3(ctx, rep):
     P = ctx.P
     f = P.func("syne_tune.optimizer.schedulers.searchers.searcher.impute_points_to_evaluate")
     cfg = cfg_of(f)
-    app = [(n.id, x) for n in cfg.nodes for x in cfg.node_walk(n.id) if isinstance(x, ast.Call) and fn_name(x) == "append" and U(x.func.value) == "result"]
+    resv = [U(r.value) for r in returns_of(f)]
+    resv = resv[0] if len(resv) == 1 else "?"
+    app = [(n.id, x) for n in cfg.nodes for x in cfg.node_walk(n.id) if isinstance(x, ast.Call) and fn_name(x) == "append" and U(x.func.value) == resv]
     ok = len(app) == 1
     if ok:
         at = ctx.facts(f).at(app[0][0])
-        ok = any(a[0] == "in" and a[3] is False and "excl" in a[2] for a in at)
+        seen = [a[2] for a in at if a[0] == "in" and a[3] is False]
+        # the membership test is on a set local to the function
+        seen = [s_ for s_ in seen if any(isinstance(d, ast.Call) and fn_name(d) == "set" for d in local_defs(f, s_) if not isinstance(d, tuple))]
+        ok = len(seen) == 1
         loop = [n for n in cfg.nodes if n.kind == "for"]
         ok = ok and len(loop) == 1 and U(loop[0].ast.iter) == "points_to_evaluate"
-        adds = [n.id for n in cfg.nodes if any(isinstance(x, ast.Call) and fn_name(x) == "add" and "excl" in U(x.func.value) for x in cfg.node_walk(n.id))]
+        adds = [n.id for n in cfg.nodes if any(isinstance(x, ast.Call) and fn_name(x) == "add" and seen and U(x.func.value) == seen[0] for x in cfg.node_walk(n.id))]
         ok = ok and bool(adds) and cfg.path([s for s, l in cfg.succ[app[0][0]]], loop[0].id, deleted=set(adds), skip_labels=("exc",)) is None
     rep.put(ok, "S3", "guarded_by", "impute_points_to_evaluate: appended in input order, only if not seen, and recorded as seen", f, None, "",
             "duplicates among the initial configurations are not removed, or the order is not the given one")
@@ -194,7 +200,7 @@ def s4(ctx, rep):
     if not src or not add:
         raise AnchorError("StochasticAndFilterDuplicatesSearcher.get_config: _get_config / _excl_list.add not found")
     p = cfg.path([s for s, l in cfg.succ[next(iter(src))]], cfg.exit, deleted=add, skip_labels=("exc",),
-                 edge_ok=_edge_assume(["not self._allow_duplicates", "new_config is not None"]))
+                 edge_ok=_edge_assume(["not self._allow_duplicates", f"{var_from_call(f, '_get_config')} is not None"]))
     rep.put(p is None, "S4", "must_follow", "StochasticAndFilterDuplicatesSearcher.get_config: every returned configuration is recorded when duplicates are not allowed",
             f, None, "", "a configuration is returned without being added to the exclusion list: it can be suggested again",
             witness=cfg.describe_path(p) if p else None)
@@ -211,31 +217,47 @@ def s4(ctx, rep):
                     f"{sub.name} overrides get_config and bypasses the exclusion-list bookkeeping")
     s = P.func("syne_tune.optimizer.schedulers.searchers.searcher_base.sample_random_configuration")
     cs = cfg_of(s)
-    asg = [n for n in cs.nodes if n.kind == "stmt" and isinstance(n.ast, ast.Assign) and U(n.ast.targets[0]) == "new_config" and U(n.ast.value) != "None"]
+    rvn = [U(r.value) for r in returns_of(s)]
+    rvn = rvn[0] if len(rvn) == 1 else "?"
+    asg = [n for n in cs.nodes if n.kind == "stmt" and isinstance(n.ast, ast.Assign) and U(n.ast.targets[0]) == rvn and U(n.ast.value) != "None"]
     ok = len(asg) == 1
     if ok:
         at = ctx.facts(s).at(asg[0].id)
-        ok = any(a[0] == "or" and "contains" in repr(a) and "no_exclusion" in repr(a) for a in at)
         cand = U(asg[0].ast.value)
-        ok = ok and any(f"contains({cand})" in repr(a) for a in at)
+        # (no exclusion list given) or (not exclusion_list.contains(candidate))
+        ok = any(a[0] == "or" and any(any(x[0] == "truth" and x[2] is False and f"contains({cand})" in x[1] for x in d) for d in a[1])
+                 and any(any(x[0] == "truth" and x[2] is True and any("exclusion_list is None" in U(dd) for dd in local_defs(s, x[1]) if not isinstance(dd, tuple))
+                             for x in d) for d in a[1]) for a in at)
     rep.put(ok, "S4", "guarded_by", "sample_random_configuration returns only a configuration the exclusion list does not contain", s, None, "",
             "random sampling can return an excluded configuration")
     b = P.func("syne_tune.optimizer.schedulers.searchers.bayesopt.tuning_algorithms.bo_algorithm._pick_from_locally_optimized")
     cb = cfg_of(b)
-    ins = [n for n in cb.nodes if n.kind == "stmt" and isinstance(n.ast, ast.Assign) and U(n.ast.targets[0]) == "insert_candidate" and U(n.ast.value) != "None"]
-    ok = len(ins) == 2
+    loop = [n for n in walk_shallow(b.node) if isinstance(n, ast.For) and isinstance(n.target, ast.Tuple) and len(n.target.elts) == 2]
+    if len(loop) != 1:
+        raise AnchorError("_pick_from_locally_optimized: loop over (original, optimised) candidates not found")
+    orig, opt = U(loop[0].target.elts[0]), U(loop[0].target.elts[1])
+    exl = var_from_call(b, "copy")
+    dupv = {}
+    for nm in {x.id for x in ast.walk(b.node) if isinstance(x, ast.Name)}:
+        for d in local_defs(b, nm):
+            if not isinstance(d, tuple) and isinstance(d, ast.Call) and fn_name(d) == "contains" and "duplicate_detector" in U(d.func.value) and len(d.args) == 2:
+                dupv[U(d.args[1])] = (nm, U(d.args[0]))
+    appc = [x for x in walk_shallow(b.node) if isinstance(x, ast.Call) and fn_name(x) == "append"]
+    insv = U(appc[0].args[0]) if appc else "?"
+    ins = [n for n in cb.nodes if n.kind == "stmt" and isinstance(n.ast, ast.Assign) and U(n.ast.targets[0]) == insv and U(n.ast.value) != "None"]
+    ok = len(ins) == 2 and opt in dupv and orig in dupv and dupv[opt][1] == exl and dupv[orig][1] == exl
     for n in ins:
         at = ctx.facts(b).at(n.id)
         v = U(n.ast.value)
-        if v.startswith("optimized"):
-            ok = ok and ("truth", "optimized_is_duplicate", False) in at
+        if v == opt:
+            ok = ok and ("truth", dupv[opt][0], False) in at
+        elif v == orig:
+            ok = ok and ("truth", dupv[orig][0], False) in at and ("truth", dupv[opt][0], True) in at
         else:
-            ok = ok and ("truth", "original_also_duplicate", False) in at and ("truth", "optimized_is_duplicate", True) in at
-    defs = {U(d) for nm in ("optimized_is_duplicate", "original_also_duplicate") for d in local_defs(b, nm) if not isinstance(d, tuple)}
-    ok = ok and all("duplicate_detector.contains(updated_excludelist" in d for d in defs)
+            ok = False
     rep.put(ok, "S4", "guarded_by", "_pick_from_locally_optimized inserts the optimised candidate only if new, else the original only if new", b, None, "")
-    addn = {n.id for n in cb.nodes if any(isinstance(x, ast.Call) and fn_name(x) == "add" and "updated_excludelist" in U(x.func.value) for x in cb.node_walk(n.id))}
-    appn = [n.id for n in cb.nodes if any(isinstance(x, ast.Call) and fn_name(x) == "append" and U(x.func.value) == "result" for x in cb.node_walk(n.id))]
+    addn = {n.id for n in cb.nodes if any(isinstance(x, ast.Call) and fn_name(x) == "add" and exl is not None and U(x.func.value) == exl for x in cb.node_walk(n.id))}
+    appn = [n.id for n in cb.nodes if any(x is appc[0] for x in cb.node_walk(n.id))] if appc else []
     head = [n.id for n in cb.nodes if n.kind == "for"]
     ok = bool(addn) and bool(appn) and cb.path([s_ for s_, l in cb.succ[appn[0]]], head + [cb.exit], deleted=addn, skip_labels=("exc",)) is None
     rep.put(ok, "S4", "must_follow", "_pick_from_locally_optimized: every inserted candidate is added to the running exclusion list", b, None, "")
@@ -280,37 +302,44 @@ def s6(ctx, rep):
             "the grid index is advanced twice, or not at all, on some path: candidates are skipped or repeated")
     rs = [n for n in cfg.nodes if n.kind == "stmt" and isinstance(n.ast, ast.Assign) and U(n.ast.targets[0]) == "self._next_index" and U(n.ast.value) == "0"]
     ok = len(rs) == 1 and ctx.has_fact(f, rs[0].id, lambda a: a[0] == "truth" and a[1] == "self._allow_duplicates" and a[2] is True) and \
-        ctx.has_fact(f, rs[0].id, lambda a: a[0] == "eq" and a[3] is True and "num_combinations" in (a[1], a[2]))
+        ctx.has_fact(f, rs[0].id, lambda a: a[0] == "eq" and a[3] is True and "self._next_index" in (a[1], a[2]) and
+                     any("len(self.hp_values_combinations)" == U(d) for x_ in (a[1], a[2]) for d in local_defs(f, x_) if not isinstance(d, tuple)))
     rep.put(ok, "S6", "guarded_by", "GridSearcher._next_candidate_on_grid: index reset only when duplicates are allowed and the grid is used up", f,
             rs[0].ast if rs else None, "", "the grid is enumerated a second time although duplicates are not allowed")
-    ok = ("lt", "self._next_index", "num_combinations") in atoms_of(h.ast, True)
+    ok = any(a[0] == "lt" and a[1] == "self._next_index" and any("len(self.hp_values_combinations)" == U(d) for d in local_defs(f, a[2]) if not isinstance(d, tuple))
+             for a in atoms_of(h.ast, True))
     rep.put(ok, "S6", "guarded_by", "GridSearcher._next_candidate_on_grid: stops at the end of the grid", f, h.stmt, "")
     g = P.method("GridSearcher", "get_config")
     cg = cfg_of(g)
     a = ctx.nodes(g, ctx.sel_call(selfcall="_next_initial_config"), "must", 0)
     rec = {n.id for n in cg.nodes if any(isinstance(x, ast.Call) and fn_name(x) == "add" and "_all_initial_configs" in U(x.func.value) for x in cg.node_walk(n.id))}
-    ok = bool(rec) and all(ctx.has_fact(g, n, lambda a_: a_[0] == "is" and a_[1] == "new_config" and a_[3] is False) for n in rec)
+    qv = var_from_call(g, "_next_initial_config")
+    ok = bool(rec) and qv is not None and all(ctx.has_fact(g, n, lambda a_: a_[0] == "is" and a_[1] == qv and a_[3] is False) for n in rec)
     rep.put(ok, "S6", "guarded_by", "GridSearcher.get_config records initial configurations so the grid skips them", g, None, "")
 
 
 def s7(ctx, rep):
     P = ctx.P
     f = P.method("PopulationBasedTraining", "_explore")
+    rets = [U(r.value) for r in returns_of(f) if isinstance(r.value, ast.Name)]
     stores = [x for x in walk_shallow(f.node) if isinstance(x, ast.Assign) and isinstance(x.targets[0], ast.Subscript)
-              and U(x.targets[0].value) == "new_config"]
+              and U(x.targets[0].value) in rets]
     if len(stores) < 2:
         raise AnchorError("PBT._explore: stores into new_config not found")
     for st in stores:
         v = st.value
         ok = False
         how = ""
-        if isinstance(v, ast.Call) and fn_name(v) == "sample" and "hp_range" in U(v.func.value):
+        dom = [U(n.target.elts[1]) for n in walk_shallow(f.node) if isinstance(n, ast.For) and isinstance(n.target, ast.Tuple)
+               and len(n.target.elts) == 2 and "config_space.items()" in U(n.iter)]
+        dom = dom[0] if dom else "?"
+        if isinstance(v, ast.Call) and fn_name(v) == "sample" and U(v.func.value) == dom:
             ok = kwarg(v, "random_state") is not None
             how = "hp_range.sample(random_state=...)"
-        elif isinstance(v, ast.Call) and fn_name(v) == "cast" and "hp_range" in U(v.func.value) and v.args and isinstance(v.args[0], ast.Call) \
+        elif isinstance(v, ast.Call) and fn_name(v) == "cast" and U(v.func.value) == dom and v.args and isinstance(v.args[0], ast.Call) \
                 and fn_name(v.args[0]) == "clip":
             c = v.args[0]
-            ok = len(c.args) == 3 and U(c.args[1]) == "hp_range.lower" and U(c.args[2]) == "hp_range.upper"
+            ok = len(c.args) == 3 and U(c.args[1]) == f"{dom}.lower" and U(c.args[2]) == f"{dom}.upper"
             how = "hp_range.cast(np.clip(·, lower, upper))"
         rep.put(ok, "S7", "taint", f"PopulationBasedTraining._explore: new_config[key] := {how or U(v)[:40]}", f, st, "",
                 f"`{U(st)[:80]}` stores a perturbed value that is neither sampled from the domain nor clipped to its bounds and cast")
